@@ -29,6 +29,7 @@ RULE_TEXT = ('one obligation per (writer, memo field) pair, per (writer, state f
 
 
 DICT_MEMO = set()        # (class, field) of dictionary-valued memo fields
+DERIVED = set()          # (class, field) of fields the constructor derives from other state: refreshed by any store
 
 
 def _fresh_container(v):
@@ -45,10 +46,15 @@ def _memo_fields(cf):
       continue
     sn = cf.selfname(f)
     tested = set()
+    # locals that name a field: `setup = self._aasetup ... if setup is None:` tests the field
+    alias = {}
+    for sub in walk_no_nested(f.node):
+      if isinstance(sub, ast.Assign) and len(sub.targets) == 1 and isinstance(sub.targets[0], ast.Name) and classfx.self_attr(sub.value, sn):
+        alias[sub.targets[0].id] = classfx.self_attr(sub.value, sn)
     for sub in walk_no_nested(f.node):
       if isinstance(sub, ast.Compare) and len(sub.ops) == 1 and isinstance(sub.ops[0], (ast.Is, ast.IsNot, ast.Eq, ast.NotEq)) \
           and classfx.is_none(sub.comparators[0]):
-        name = classfx.self_attr(sub.left, sn)
+        name = classfx.self_attr(sub.left, sn) or (alias.get(sub.left.id) if isinstance(sub.left, ast.Name) else None)
         if name:
           tested.add(name)
       # truthiness tests `if not self._f:` / `if self._f:`
@@ -107,6 +113,8 @@ def _reset_nodes(cf, f, memo_names, _stack=()):
       out.setdefault(name, set()).add(node)
     elif via == 'field' and value is not None and (cf.cls.qualname, name) in DICT_MEMO and _fresh_container(value):
       out.setdefault(name, set()).add(node)          # a dictionary memo is reset by installing a fresh container
+    elif via == 'field' and (cf.cls.qualname, name) in DERIVED:
+      out.setdefault(name, set()).add(node)          # an eagerly derived field is refreshed by storing it again
     elif via == 'setter':
       callee = cf.cls.setters[name]
       for fld in _reset_summary(cf, callee, memo_names, _stack):
@@ -197,6 +205,43 @@ def analyse_class(repo, rep, class_q, floors=None, prefix=''):
     for f, node in sites:
       d |= cf.reads(f)
     deps[name] = d - {name}
+  # eagerly derived fields: a field the constructor fills from an expression that reads other (settable) state of the
+  # object is a cache of that state just like a lazily filled one; whoever replaces the state must refresh or reset it
+  init_f = cls.methods.get('__init__')
+  settable = set()
+  for f_ in cf.funcs.values():
+    if f_.name != '__init__':
+      settable |= {k_ for k_ in _state_stores(cf, f_, memo_names)}
+  derived = {}
+  if init_f is not None and init_f.qualname in cf.funcs:
+    sn_ = cf.selfname(init_f)
+    for name, node, value, via in cf.stores(init_f):
+      if via != 'field' or value is None or classfx.is_none(value) or name in memo_names:
+        continue
+      rd_ = set()
+      try:
+        from mmsa import dataflow as _df
+        value = _df.Reaching(cf.cfg(init_f)).expand(node, value, depth=12, aliases=True)[0]
+      except Exception:
+        pass
+      for x_ in ast.walk(value):
+        nm_ = classfx.self_attr(x_, sn_)
+        if nm_ is None or not isinstance(getattr(x_, 'ctx', None), ast.Load):
+          continue
+        if nm_ in cls.getters:
+          rd_ |= cf.reads(cls.getters[nm_])
+        elif nm_ in cls.methods:
+          rd_ |= cf.reads(cls.methods[nm_])
+        else:
+          rd_.add(nm_)
+      rd_ = (rd_ & settable) - {name}
+      if rd_:
+        derived[name] = rd_
+  for name, rd_ in derived.items():
+    memo_names.add(name)
+    deps[name] = rd_
+    DERIVED.add((class_q, name))
+  rep.extra.setdefault('eagerly_derived_fields', {})[class_q] = {k: sorted(v) for k, v in sorted(derived.items())}
   rep.extra.setdefault('memo_dependencies', {})[class_q] = {k: sorted(v) for k, v in sorted(deps.items())}
 
   # writers: every function other than __init__ that installs state into a non-memo field,
